@@ -110,7 +110,7 @@ func switchToParentThread(L *LState, nargs int, haserror bool, kill bool) {
 	if !L.wrapped {
 		need++
 	}
-	fits := need <= cap(parent.reg.array) || need <= parent.reg.maxSize
+	fits := need <= parent.reg.limit || need <= parent.reg.maxSize
 	if fits {
 		if !L.wrapped {
 			if haserror {
